@@ -3,6 +3,7 @@ from .. import terms as T
 from ..terms import C, NONE
 from .. import engine as E
 from . import c05
+from . import common
 
 SIG = ('param', 'sig')
 NEG = T.neg(SIG)
@@ -28,6 +29,9 @@ def check(rep, model, tier):
                              'image of T and -sig (amp_fraction, amp/period consistency x 3 directions, monotonicity, burst_fraction)')
     rep.rule('LABEL-INDEP', 'the labelling functions read only burst-feature columns (no cyclepoint or centring-dependent column), so equal features give equal labels')
     rep.rule('ORIG-SIG', 'compute_features hands its own (un-negated) signal and the renamed table to the burst features')
+    rep.rule('OPTIONS-STABLE', 'compute_features (closed over everything it calls) writes through none of its arguments: the two analyses of a mirror pair are given the same option '
+                               'objects (nested filter options included), so an option removed or rewritten by the first analysis would make the second one a different analysis')
+    common.args_intact(rep, model, ['compute_features'], rule='OPTIONS-STABLE', why='both analyses of the mirror pair receive the same option objects')
     rep.assumptions += ['filtering / analytic amplitude are odd / even in the signal (model: amp_by_time(-x)=amp_by_time(x), dual threshold mask(-x)=mask(x)); '
                         'bit-level identity of the two runs is not decided',
                         'find_extrema/find_zerox abstracted: the same arrays in both runs because both analyse -sig']
